@@ -101,6 +101,9 @@ def i_match_sigs(keys, sigs, rows):
     return 1
 
 
+# too slow inside Coq (256-bit curve arithmetic): not part of the extraction self-check
+VM_SKIP = {"verify_input"}
+
 IMPL = {"verify_input": i_verify_input, "match_sigs": i_match_sigs}
 
 
